@@ -168,7 +168,15 @@ pub fn run_op(obs: &mut Obs, op: Op, input: &[u8], family: &str) {
     }
     let budget = 64 * (w + n) + MIB;
     let base = mon::alloc_window_begin();
-    let mut rdr = CountingReader::new(Cursor::new(input), budget);
+    // a quarter of the inputs are served in short reads (pattern 0 = plain: up to 45-byte pieces)
+    let dribble_seed = fnv(input);
+    let mut rdr = CountingReader::new(
+        mon::DribbleReader::new(Cursor::new(input), dribble_seed),
+        if dribble_seed % 4 == 0 { budget.saturating_mul(64) } else { budget },
+    );
+    if dribble_seed % 4 != 0 {
+        rdr = CountingReader::new(mon::DribbleReader::passthrough(Cursor::new(input)), budget);
+    }
     let mut radials: Vec<nexrad_decode::messages::digital_radar_data::Message> = Vec::new();
     mon::case_begin(&op.name(), family, input);
     let res = mon::catch(|| -> Result<(), String> {
